@@ -603,7 +603,26 @@ def run(ctx):
                 r = rng.random()
                 sup = [[], [qp.X], [qp.Y], [qp.X, qp.Y], [qp.Hadamard], [qp.X, qp.Z, qp.Identity], [qp.X, qp.Y, qp.Z, qp.Hadamard]][int(rng.integers(7))] if r < 0.5 else None
                 ms = hostile_measurements(qp, rng, tv, wires, basis=basis if commuting else None, kinds=("expval", "expval", "var", "expval"), allow_nonpauli=False)
-                if rng.random() < 0.3:
+                if not commuting and rng.random() < 0.6:
+                    # a set whose ONLY basis clash is Z against X / Y / Hadamard on one wire (everything else qubit-wise commuting):
+                    # must be rejected with the documented ValueError, or - if accepted - still give the reference results
+                    cw = wires[int(rng.integers(len(wires)))]
+                    basis2 = dict(basis, **{cw: "Z"})
+                    others = [w for w in wires if w != cw]
+                    zfac = qp.Z(cw)
+                    cfac = [qp.X, qp.Y, qp.Hadamard][int(rng.integers(3))](cw)
+                    def _with(f):
+                        if others and rng.random() < 0.5:
+                            w2 = others[int(rng.integers(len(others)))]
+                            return f @ getattr(qp, "Pauli" + basis2[w2])(w2)
+                        return f
+                    pair = [qp.expval(_with(zfac)) if rng.random() < 0.7 else qp.var(_with(zfac)), qp.expval(_with(cfac))]
+                    if rng.random() < 0.5:
+                        pair.reverse()
+                    extra = [qp.expval(_word(qp, rng, others, basis2))] if others and rng.random() < 0.5 else []
+                    ms = pair + extra
+                    ctx.count("diag.z_clash_cases")
+                if rng.random() < 0.3 and commuting:
                     # Hadamard observable on an otherwise unused-basis wire, and wire-only measurements on Z-basis wires
                     hw = wires[int(rng.integers(len(wires)))]
                     ms = [m for m in ms if hw not in m.wires] + [qp.expval(qp.Hadamard(hw))]
